@@ -10,6 +10,7 @@ concretises every exported case with hostile strings, stores it, sends the LogQL
 /loki/api/v1/query_range route (real parser, planners, post-processors; SQL run by chsql on the real DDL) and compares
 the JSON answer with the definition's result."""
 import concurrent.futures
+import hashlib
 import json
 import os
 import random
@@ -63,27 +64,66 @@ def parse_tlc_cases(out):
 # ------------------------------------------------------------------------------------------------------------------
 # sampled product cases (fragment S): generated here by seed, evaluated (Eval / PlanEval) by TLC
 # ------------------------------------------------------------------------------------------------------------------
-def rand_leaf(r, labels_str, labels_num):
-    if r.random() < 0.5:
+NUMV = {'n0': 0, 'n1': 1, 'n2': 2, 'n3': 3}
+REV = {'R_v1': {'v1'}, 'R_v2': {'v2'}, 'R_v1v2': {'v1', 'v2'}, 'R_n': {'n1', 'n3'}}
+
+
+def re_matches(ra, v):
+    if ra == 'R_any':
+        return True
+    if ra == 'R_some':
+        return v != ''
+    return v in REV[ra]
+
+
+def str_pred_true(r, v, consts, regexes):
+    """an (op, val) over strings that holds for the value v"""
+    for _ in range(20):
+        op = r.choice(['=', '!=', '=~', '!~'])
+        val = r.choice(consts) if op in ('=', '!=') else r.choice(regexes)
+        holds = {'=': v == val, '!=': v != val, '=~': op == '=~' and re_matches(val, v), '!~': op == '!~' and not re_matches(val, v)}[op]
+        if holds:
+            return op, val
+    return '=', v
+
+
+def num_pred_true(r, v):
+    x = NUMV[v]
+    for _ in range(30):
+        op = r.choice(['==', '!=', '>', '>=', '<', '<='])
+        k = r.choice([1, 2])
+        if {'==': x == k, '!=': x != k, '>': x > k, '>=': x >= k, '<': x < k, '<=': x <= k}[op]:
+            return op, k
+    return '>=', 1
+
+
+def rand_leaf(r, labels_str, labels_num, guess):
+    target = guess is not None and r.random() < 0.65
+    if r.random() < 0.45:
         lbl = r.choice(labels_num)
-        return {'t': 'leaf', 'lbl': lbl, 'op': r.choice(['==', '!=', '>', '>=', '<', '<=']), 'num': True, 'val': '', 'k': r.choice([1, 2])}
+        if target and guess.get(lbl) in NUMV:
+            op, k = num_pred_true(r, guess[lbl])
+        else:
+            op, k = r.choice(['==', '!=', '>', '>=', '<', '<=']), r.choice([1, 2])
+        return {'t': 'leaf', 'lbl': lbl, 'op': op, 'num': True, 'val': '', 'k': k}
     lbl = r.choice(labels_str)
-    op = r.choice(['=', '!=', '=~', '!~'])
-    if op in ('=', '!='):
-        val = r.choice(['v1', 'v2', '', 'n1'])
+    consts, regexes = ['v1', 'v2', '', 'n1'], ['R_v1', 'R_v1v2', 'R_any', 'R_some', 'R_n']
+    if target:
+        op, val = str_pred_true(r, guess.get(lbl, ''), consts, regexes)
     else:
-        val = r.choice(['R_v1', 'R_v1v2', 'R_any', 'R_some', 'R_n'])
+        op = r.choice(['=', '!=', '=~', '!~'])
+        val = r.choice(consts) if op in ('=', '!=') else r.choice(regexes)
     return {'t': 'leaf', 'lbl': lbl, 'op': op, 'num': False, 'val': val, 'k': 0}
 
 
-def rand_tree(r, depth, ls, ln):
+def rand_tree(r, depth, ls, ln, guess):
     if depth == 0 or r.random() < 0.4:
-        return rand_leaf(r, ls, ln)
-    return {'t': r.choice(['and', 'or']), 'l': rand_tree(r, depth - 1, ls, ln), 'r': rand_tree(r, depth - 1, ls, ln)}
+        return rand_leaf(r, ls, ln, guess)
+    return {'t': r.choice(['and', 'or']), 'l': rand_tree(r, depth - 1, ls, ln, guess), 'r': rand_tree(r, depth - 1, ls, ln, guess)}
 
 
-def rand_case(r):
-    fmt = r.choice(['json', 'plain'])
+def rand_db(r, fmt=None, unwrap=False):
+    fmt = fmt or r.choice(['json', 'plain'])
     vals_a = ['v1', 'v2', '']
     vals_b = ['', 'v1', 'v2', 'n1', 'n3', 'w']
     streams = []
@@ -91,47 +131,84 @@ def rand_case(r):
         s = {'a': r.choice(vals_a), 'b': r.choice(vals_b)}
         if (s['a'] or s['b']) and s not in streams:
             streams.append(s)
-    ticks = r.sample(range(0, 6), r.randint(1, 4))
+    ticks = r.sample([0, 1, 1, 2, 2, 3, 3, 4, 4, 5], r.randint(1, 4))
+    ticks = sorted(set(ticks))
     db = []
-    for t in sorted(ticks):
+    for t in ticks:
         db.append({'s': r.choice(streams), 't': t, 'feats': set(f for f in ('f1', 'f2', 'f3') if r.random() < 0.4),
-                   'ty': 'log' if r.random() < 0.8 else 'metric', 'fmt': fmt,
+                   'ty': 'log' if r.random() < 0.85 else 'metric', 'fmt': fmt,
                    'fld': {'x': r.choice(['', 'v1', 'v2']), 'ox': r.choice(['', 'v1', 'v2']), 'n': r.choice(['', 'n1', 'n3', 'w'])}})
+    return fmt, db
+
+
+def rand_matchers(r, tgt):
     ms = []
     for _ in range(r.randint(1, 2)):
-        op = r.choice(['=', '=', '!=', '=~', '=~', '!~'])
         name = r.choice(['a', 'b'])
-        if op in ('=', '!='):
-            val = r.choice(['v1', 'v2', '']) if name == 'a' else r.choice(['v1', 'n1', 'w', ''])
+        consts = ['v1', 'v2', ''] if name == 'a' else ['v1', 'n1', 'w', '']
+        regexes = ['R_v1', 'R_v1v2', 'R_any', 'R_some'] + (['R_n'] if name == 'b' else [])
+        if r.random() < 0.75:
+            op, val = str_pred_true(r, tgt['s'][name], consts, regexes)
         else:
-            val = r.choice(['R_v1', 'R_v1v2', 'R_any', 'R_some'] + (['R_n'] if name == 'b' else []))
+            op = r.choice(['=', '!=', '=~', '!~'])
+            val = r.choice(consts) if op in ('=', '!=') else r.choice(regexes)
         ms.append({'name': name, 'op': op, 'val': val})
+    return ms
+
+
+def rand_stages(r, fmt, tgt, n, allow_ex=True):
     stages = []
-    n = r.randint(0, 4)
     have_ex = False
+    guess = {'a': tgt['s']['a'], 'b': tgt['s']['b'], 'x': '', 'y': '', 'o_x': '', 'n': ''}
     for _ in range(n):
         kind = r.choice(['lf', 'lf', 'lbl', 'lbl', 'ex', 'drop'])
         if kind == 'lf':
             op = r.choice(['|=', '!=', '|~', '!~'])
             arg = r.choice(['f1', 'f2', 'f3']) if op in ('|=', '!=') else r.choice(['L_f1', 'L_f2', 'R_f1', 'R_f2', 'R_f1f2', 'R_f2f3'])
+            if r.random() < 0.7:   # make it hold for the target entry
+                fe = {'f1': {'f1'}, 'f2': {'f2'}, 'f3': {'f3'}, 'L_f1': {'f1'}, 'L_f2': {'f2'}, 'R_f1': {'f1'}, 'R_f2': {'f2'},
+                      'R_f1f2': {'f1', 'f2'}, 'R_f2f3': {'f2', 'f3'}}[arg]
+                hit = bool(fe & set(tgt['feats']))
+                if op in ('|=', '|~') and not hit:
+                    op = {'|=': '!=', '|~': '!~'}[op]
+                elif op in ('!=', '!~') and hit:
+                    op = {'!=': '|=', '!~': '|~'}[op]
             stages.append({'k': 'lf', 'op': op, 'arg': arg})
         elif kind == 'lbl':
-            stages.append({'k': 'lbl', 'tree': rand_tree(r, 2, ['a', 'b', 'x', 'y', 'o_x'], ['b', 'n'])})
-        elif kind == 'ex' and not have_ex:
+            stages.append({'k': 'lbl', 'tree': rand_tree(r, 2, ['a', 'b', 'x', 'y', 'o_x'], ['b', 'n'], guess)})
+        elif kind == 'ex' and not have_ex and allow_ex:
             have_ex = True
             if fmt == 'json':
                 if r.random() < 0.35:
                     stages.append({'k': 'json'})
+                    guess.update({'x': tgt['fld']['x'], 'o_x': tgt['fld']['ox'], 'n': tgt['fld']['n']})
                 else:
                     ps = r.sample([('x', 'x'), ('y', 'o.x'), ('n', 'n')], r.randint(1, 2))
                     stages.append({'k': 'jsonp', 'params': [{'lbl': a, 'path': b} for a, b in ps]})
+                    for a, b in ps:
+                        guess[a] = tgt['fld'][{'x': 'x', 'o.x': 'ox', 'n': 'n'}[b]]
             else:
-                stages.append({'k': 'regexp', 'groups': r.choice([['x'], ['n'], ['x', 'n']])})
+                g = r.choice([['x'], ['n'], ['x', 'n']])
+                stages.append({'k': 'regexp', 'groups': g})
+                for a in g:
+                    guess[a] = tgt['fld'][a]
         elif kind == 'drop':
             if r.random() < 0.6:
-                stages.append({'k': 'drop', 'names': set(r.sample(['a', 'b', 'x', 'n'], r.randint(1, 2)))})
+                names = set(r.sample(['a', 'b', 'x', 'n'], r.randint(1, 2)))
+                stages.append({'k': 'drop', 'names': names})
+                for a in names:
+                    guess[a] = ''
             else:
                 stages.append({'k': 'dropv', 'name': r.choice(['a', 'b', 'x']), 'val': r.choice(['v1', 'v2'])})
+    return stages
+
+
+def rand_case(r):
+    fmt, db = rand_db(r)
+    cands = [e for e in db if e['ty'] == 'log' and 1 <= e['t'] < 5] or db
+    tgt = r.choice(cands)
+    ms = rand_matchers(r, tgt)
+    stages = rand_stages(r, fmt, tgt, r.randint(0, 4))
     has_json = any(s['k'] == 'json' for s in stages)
     lim = r.choice([0, 1, 2, 3, 1000]) if not has_json else r.choice([1, 2, 3, 1000, 1000, 0])
     q = {'m': ms, 'p': stages, 'from': 1, 'to': 5, 'lim': lim, 'fwd': r.random() < 0.5}
@@ -165,7 +242,7 @@ def tlc_fragment(frag, tier, sd, seed, mc_module='MC_LogQL', gen=rand_case, cfg_
     cfgp = os.path.join(sd, cfgname)
     open(cfgp, 'w').write(cfg_tpl % consts)
     extra.append(cfgp)
-    res = vlib.tlc(SPECDIR, module, cfgname, workers=6, timeout=1500, copy_extra=extra)
+    res = vlib.tlc(SPECDIR, module, cfgname, workers={'S': 1, 'L': 1, 'P': 4, 'M': 4, 'W': 6}.get(frag, 4), timeout=1500, copy_extra=extra)
     try:
         if res['violated']:
             raise vlib.Infra('TLC: invariant %s violated in fragment %s of %s (the specification is inconsistent):\n%s' % (
@@ -200,7 +277,9 @@ def collect(pid, result, frs, tier):
     if result.get('infra'):
         raise vlib.Infra('driver reported infrastructure problems: ' + '; '.join(result['infra'][:5]))
     refuted = result.get('dev_cases_where_code_meets_definition') or []
-    if refuted:
+    unexplained = [m for m in result.get('mismatches') or [] if m['signature'].startswith('unattributed:')]
+    if refuted and not unexplained:
+        # (with unexplained mismatches the code misbehaves in ways the mechanism model does not know; coincidences are expected)
         raise vlib.Infra('%d cases on which LogQLPlan (mechanism) differs from LogQLSem (definition) but the real code meets the '
                          'definition: the mechanism specification misrepresents the code (first: %s)' % (len(refuted), refuted[:5]))
     viols = []
@@ -216,7 +295,7 @@ def collect(pid, result, frs, tier):
             obj['kind'] = 'TLC case replayed through /loki/api/v1/query_range of the real reader'
             obj['signature'] = sig
             obj['cases_with_this_signature'] = len(ms)
-            path = vlib.save_replay(pid, re.sub(r'[^A-Za-z0-9]+', '_', sig)[:100], obj)
+            path = vlib.save_replay(pid, '%s_%s' % (re.sub(r'[^A-Za-z0-9]+', '_', sig)[:90], hashlib.md5(sig.encode()).hexdigest()[:6]), obj)
         viols.append({'property': pid, 'signature': sig, 'replay': path,
                       'msg': '%s [%d cases; mechanism model predicts it: %s]' % (m['msg'][:900], len(ms), m.get('matches_mechanism_model'))})
     return viols
@@ -227,7 +306,7 @@ def run(tier):
     sd = vlib.scratch('c07')
     try:
         frags = ['M', 'L', 'P', 'W', 'S']
-        with concurrent.futures.ThreadPoolExecutor(max_workers=3) as ex:
+        with concurrent.futures.ThreadPoolExecutor(max_workers=5) as ex:
             frs = list(ex.map(lambda f: tlc_fragment(f, tier, sd, vlib.seed()), frags))
         cases = []
         for fr in frs:
